@@ -134,6 +134,16 @@ Definition gnonnil (isnil : bool) : gres unit := if isnil then GPanic else GOk t
 Fixpoint bytes_contains (s sub : bytes) : bool :=
   has_prefix s sub || match s with [] => false | _ :: r => bytes_contains r sub end.
 
+(** bytes.TrimPrefix *)
+Definition trim_prefix (s p : bytes) : bytes := if has_prefix s p then skipn (List.length p) s else s.
+
+(** *regexp.Regexp: a compiled regular expression is an arbitrary predicate on
+    byte strings (the regexp engine is not translated); [None] is the nil pointer,
+    on which a method call panics *)
+Definition rx_is_nil (r : option (bytes -> bool)) : bool := match r with None => true | Some _ => false end.
+Definition grx_match (r : option (bytes -> bool)) (b : bytes) : gres bool :=
+  match r with Some m => GOk (m b) | None => GPanic end.
+
 (** loops.  A loop body yields the new values of the variables it assigns
     ([LNext]: fell through or [continue]), [LBreak], or [LRet] (a [return]
     inside the loop, carrying the function's result). *)
